@@ -8,7 +8,7 @@ import time
 
 REPO = os.environ.get('GDSL_REPO', '/repo')
 VERIF = os.path.dirname(os.path.dirname(os.path.abspath(__file__)))
-WORK = os.path.join(VERIF, '.work')
+WORK = os.environ.get('VERIF_WORK') or os.path.join(VERIF, '.work')
 ENV = dict(os.environ, CARGO_NET_OFFLINE='true', RUSTC_BOOTSTRAP='1')
 HOOK_CFG = '--cfg gdsl_verif'
 
@@ -77,6 +77,27 @@ def ensure_mir(hooks=False):
         return out, time.time() - t, False
 
 
+def crate_dir(name):
+    """the harness crate `name` of /verif; when GDSL_REPO points at another tree (tools/automut.py runs mutants of a
+    scratch copy without touching /repo), a copy whose path dependency points there"""
+    src = os.path.join(VERIF, name)
+    if os.path.realpath(REPO) == '/repo':
+        return src
+    import shutil
+    dst = os.path.join(WORK, name + '-src')
+    os.makedirs(os.path.join(dst, 'src'), exist_ok=True)
+    for fn in os.listdir(os.path.join(src, 'src')):
+        a, b = os.path.join(src, 'src', fn), os.path.join(dst, 'src', fn)
+        if not os.path.exists(b) or open(a, 'rb').read() != open(b, 'rb').read():
+            shutil.copy(a, b)
+    if os.path.exists(os.path.join(src, 'Cargo.lock')):
+        shutil.copy(os.path.join(src, 'Cargo.lock'), os.path.join(dst, 'Cargo.lock'))
+    toml = open(os.path.join(src, 'Cargo.toml')).read().replace('path = "/repo"', 'path = "%s"' % REPO)
+    if not os.path.exists(os.path.join(dst, 'Cargo.toml')) or open(os.path.join(dst, 'Cargo.toml')).read() != toml:
+        open(os.path.join(dst, 'Cargo.toml'), 'w').write(toml)
+    return dst
+
+
 def ensure_replayer(hooks=False):
     tag = 'hook' if hooks else 'plain'
     with Lock('replay-' + tag):
@@ -86,7 +107,7 @@ def ensure_replayer(hooks=False):
             env['RUSTFLAGS'] = (env.get('RUSTFLAGS', '') + ' --cfg gdsl_verif').strip()
         env['RUSTFLAGS'] = (env.get('RUSTFLAGS', '') + ' -Awarnings').strip()
         t = time.time()
-        r = subprocess.run(['cargo', 'build', '--offline', '--quiet'], cwd=os.path.join(VERIF, 'replay'), env=env,
+        r = subprocess.run(['cargo', 'build', '--offline', '--quiet'], cwd=crate_dir('replay'), env=env,
                            stdout=subprocess.PIPE, stderr=subprocess.PIPE, text=True)
         if r.returncode != 0:
             sys.stderr.write(r.stderr[-4000:])
